@@ -23,6 +23,7 @@ RULE = (
     "in {none, 1..len+2}; plus sequences of 2-3 loops sharing offset:continue and nests to depth 3 with parentloop. The body prints "
     "the item and every helper, so one render exposes the whole iteration. Non-trivial = >= 1 item visited or else block rendered."
     " Rounds 5-6 added enumerated families: tablerow structure monitor (markup rows / cells against the helpers, every cols value incl. <= 0 and non-numeric, break / continue at every position); the loop after a loop abandoned by an error."
+    " Round 7 added: caller loops around rendered partials with a stray break / continue."
 )
 REQUIRED = [
     ("liquid/builtin/expressions/loop.py", "LoopExpression._slice"),
